@@ -377,7 +377,7 @@ pub fn load_findings() -> Vec<Finding> {
 
 /// Is `finding` listed with status "known" for `property`?
 pub fn is_known(findings: &[Finding], property: &str, finding: &str) -> bool {
-    findings.iter().any(|f| f.id == finding && f.property == property && f.status == "known")
+    findings.iter().any(|f| f.id == finding && f.property.split(',').any(|p| p.trim() == property) && f.status == "known")
 }
 
 /// Harness fault / inconclusive: exit code 2, never a VIOLATION.
